@@ -66,7 +66,9 @@ pub fn well_formed(h: &HdrC) -> bool {
         && (h.ci as usize) < nseg
         && 4 + 8 * nseg + 12 * h.total() <= 984
         && h.rsv == 0
-        && h.inf.iter().all(|i| i.rsv == 0)
+        && h.inf.iter().all(|i| i.rsv == 0 && i.flags & !3 == 0)
+        // reserved flag bits: whether a model keeps them is not part of the property
+        && h.hop.iter().all(|x| x.flags & !3 == 0)
 }
 
 fn model_json(m: &StandardPath, idh: &dyn Fn(u16) -> i64, idi: &dyn Fn(u16) -> i64) -> Value {
@@ -588,6 +590,35 @@ pub fn check_onehop(b0: &[u8]) -> Obs {
         (Err(m), _) | (_, Err(m)) => pvs.push(pv(format!("Panic:onehop.try_reverse:{cls}"), m.clone())),
     }
     obs["rev"] = json!({"ok": rv.clone().ok(), "cd": b1[0] & 1 != 0, "first": u16::from_be_bytes([b1[12], b1[13]]) as i64 - 200});
+    // set_second_hop: offered on the view and on the model
+    let key2 = [0x22u8; 16];
+    for adv in [false, true] {
+        let mut bv = b0.to_vec();
+        let r1 = catch(|| OneHopPathView::try_from_mut_slice(&mut bv).unwrap().0.set_second_hop(7, key2, adv));
+        let mut mm = m0.clone();
+        let r2 = catch(|| mm.set_second_hop(7, key2, adv));
+        if let (Err(m), _) | (_, Err(m)) = (&r1, &r2) {
+            pvs.push(pv("Panic:onehop.set_second_hop", format!("{m} on {}", hex(b0))));
+            continue;
+        }
+        let enc = mm.try_encode_to_vec().unwrap_or_default();
+        if enc.len() == bv.len() && (enc[0] != bv[0] || enc[2..] != bv[2..]) {
+            let field = if enc[21] != bv[21] { "exp_time" } else if enc[26..32] != bv[26..32] { "mac" } else { "other" };
+            pvs.push(pv(
+                format!("Disagree:onehop.set_second_hop:{field}"),
+                format!("set_second_hop(7, key, advanced={adv}): view second hop {} model second hop {}", hex(&bv[20..32]), hex(&enc[20..32])),
+            ));
+        }
+        if !adv {
+            obs["ssh"] = json!({"exp": bv[21], "in": u16::from_be_bytes([bv[22], bv[23]]), "eg": u16::from_be_bytes([bv[24], bv[25]])});
+        }
+        // the MAC of the second hop: AES-CMAC under the accumulator after the first hop
+        let segid = u16::from_be_bytes([b0[2], b0[3]]);
+        let beta = if adv { segid } else { segid ^ u16::from_be_bytes([b0[14], b0[15]]) };
+        let ts = u32::from_be_bytes([b0[4], b0[5], b0[6], b0[7]]);
+        let want = crate::c11::hop_mac(&key2, beta, ts, bv[21], 7, 0);
+        obs[if adv { "ssh_mac_adv" } else { "ssh_mac" }] = json!(bv[26..32] == want);
+    }
     // wrappers: the view keeps a one-hop path, the model turns it into a standard path (documented);
     // the answers must agree on Ok/Err and on the info/hop contents
     let dv0 = ScionDpPathView::OneHop(v0.clone());
@@ -709,6 +740,9 @@ pub fn onehop_cell(cell: &Value) -> (Vec<u8>, Obs, Vec<Value>) {
     for (name, spec, real) in [
         ("rev", &cell["rev"], &o.obs["rev"]),
         ("exp", &cell["exp"], &o.obs["exp"]),
+        ("ssh", &cell["ssh"], &o.obs["ssh"]),
+        ("ssh_mac", &json!(true), &o.obs["ssh_mac"]),
+        ("ssh_mac_adv", &json!(true), &o.obs["ssh_mac_adv"]),
         ("fe", &cell["fe"], &o.obs["fe"]),
         ("li", &cell["li"], &o.obs["li"]),
     ] {
